@@ -429,6 +429,10 @@ class CallMixin:
             return h(self, st, [f] + list(args), kwargs, node)
         st.log.append(('call', f.t, tuple(args)))
         self.reg.assume('A-CALLBACK: opaque callbacks return normally and do not re-enter the object under verification')
+        rty = (getattr(self.cur_contract, 'hints', None) or {}).get('opaque_returns')
+        if rty is not None:
+            # the code under contract looks at what its callbacks return: an arbitrary value of the stated type
+            return [(st, self.fresh_val(st, rty, 'cbresult'))]
         return [(st, VNone())]
 
     def call_external(self, st, name, args, kwargs, node):
